@@ -1250,3 +1250,10 @@ func swallowException(fn, callee string) string {
 	}
 	return ""
 }
+
+
+// isLitAlloc: the cell of a composite literal - `complit` / `new` in go/ssa's naming, or the result temporary
+// (__rN) into which the normaliser's expansion of a helper or literal builds the value it returns.
+func isLitAlloc(a *ssa.Alloc) bool {
+	return a.Comment == "complit" || a.Comment == "new" || strings.HasPrefix(a.Comment, "__r")
+}
